@@ -227,7 +227,7 @@ def stepLoc (T : Tables) (l : Loc) (id : Nat) (text : Bytes) : Tok × Loc :=
   if id == skipId T then
     (⟨id, text, p.1, p.2⟩, ⟨(skipLoc text p.1 p.2).1, (skipLoc text p.1 p.2).2, false, l.tok⟩)
   else if id == commentId T then
-    (⟨id, text, p.1, p.2⟩, ⟨p.1 + 1, 1, false, l.tok⟩)
+    (⟨id, text, p.1, p.2⟩, ⟨(skipLoc text p.1 p.2).1, (skipLoc text p.1 p.2).2, false, l.tok⟩)
   else (⟨id, text, p.1, p.2⟩, ⟨p.1, p.2, true, text⟩)
 
 /-- does the loop around `Lex` stop after this token: `Lex` RETURNED it (it is
